@@ -1,6 +1,7 @@
 (* C07  disable() silences a source until enable(); readiness survives the gap. *)
 From CV Require Import Base Consts Token PostAction Env Loop.
-From CVP Require Import Loop_frames Seq_lemmas Env_lemmas.
+From CVP Require Import Loop_frames Seq_lemmas Env_lemmas C06_proofs C14_life C14_life2 C06_handles C07_silence.
+Import ListNotations.
 Open Scope N_scope.
 
 (* After a completed disable() / a processed PostAction::Disable (the dispatcher-level unregister returned Ok and was not
@@ -29,6 +30,49 @@ Proof. exact ep_del_spec. Qed.
 Theorem C07_self_disable_deferred : forall s o t, is_running s o = true -> (exists ob, objs s o = Some ob) ->
   disp_unregister s o t = (ROk, false, s).
 Proof. intros s o t H [ob E]. unfold disp_unregister. rewrite E, H. reflexivity. Qed.
+
+(* SILENT THROUGH THE WHOLE GAP, whole histories. Take any state s a scenario reaches in which the source of handle o holds no
+   registration token (`src_silent`: what a completed disable() leaves behind, C07_disable_silences). Continue with ANY commands
+   and ANY callback scripts - other sources' events and callbacks, removals, insertions that re-use slots, set_interest /
+   set_deadline on o itself, disable / remove of o, dispatches with or without events, idles - under the one condition that no
+   command and no script names handle o in insert / enable / update (`cmd_ok`, `scr_ok`). Then in the state reached o still
+   holds no token and its callback counter has not moved: not one callback until enable() (or update / re-insert).
+   Ingredients: every handle's token only ever resolves to that handle's own object (C06_handles), so enable / update of
+   another handle cannot re-register o; no action is pending between events (C09), so the token-less source cannot inherit
+   a deferred re-registration when a stale event of its own is looked at; a token-less source ignores every event. Same
+   hypothesis as the other whole-history theorems (slot generations below 65536). *)
+Theorem C07_silent_until_its_handle_is_named : forall scr1 bscr1 cmds1 scr2 bscr2 cmds2 o,
+  let s := run scr1 bscr1 cmds1 in let s' := fold_left (exec_cmd scr2 bscr2) cmds2 s in
+  gens_small (slots s') ->
+  (forall ob, objs s o = Some ob -> src_silent (o_src ob)) ->
+  scr_ok o scr2 -> Forall (cmd_ok o) cmds2 ->
+  (forall ob, objs s' o = Some ob -> src_silent (o_src ob)) /\ Loop.cbn s' o = Loop.cbn s o.
+Proof.
+  cbv zeta. intros scr1 bscr1 cmds1 scr2 bscr2 cmds2 o G Hs Hscr Hc.
+  destruct (silent_until_named_run scr1 bscr1 cmds1 scr2 bscr2 cmds2 o G) as [N C]; try assumption.
+  - intros ob Ho. apply silent_notok. apply Hs. exact Ho.
+  - split; [|exact C]. intros ob Ho. apply notok_silent. apply N. exact Ho.
+Qed.
+(* met by a real history, and not because the source is dead: source 1 (a composite on fd 10) is disabled; during the gap a ping
+   source's callback removes itself, inserts source 3 into the freed slot and writes to fd 10, set_interest is called on source 1,
+   three dispatches run - source 1's callback counter stays at 1; after enable() the next dispatch raises it to 2 *)
+Example C07_gap_nonvacuous :
+  let g10 := mkGen 10 (mkInt true false) Level None false in
+  let scr : scripts := fun h => if N.eqb h 2 then [mkScript [ARemove 2; AInsert 3 (SComp false None [mkGen 12 (mkInt true false) Level None false] None); AFdWrite 10 1] 0 0%Z] else [] in
+  let c1 := [CAct (AInsert 1 (SComp false None [g10] None)); CAct (ANewPing 1 11); CAct (AInsert 2 (SPing (mkGen 11 (mkInt true false) Level None false)));
+             CAct (AFdWrite 10 1); CDispatch 0%Z []; CAct (ADisable 1)] in
+  let c2 := [CAct (APing 1); CAct (AFdWrite 10 1); CDispatch 0%Z []; CAct (ASetInt 1 0 (mkInt true true) Level); CDispatch 0%Z []; CDispatch 0%Z []] in
+  let s := run scr (fun _ => []) c1 in
+  let s' := fold_left (exec_cmd scr (fun _ => [])) c2 s in
+  let s'' := fold_left (exec_cmd scr (fun _ => [])) [CAct (AEnable 1); CDispatch 0%Z []] s' in
+  (halted s' = false /\ option_map (fun ob => src_notok (o_src ob)) (objs s 1) = Some true /\ Forall (cmd_ok 1) c2 /\ scr_ok 1 scr) /\
+  (Loop.cbn s 1, Loop.cbn s' 1, Loop.cbn s' 2, Loop.cbn s'' 1) = (1, 1, 1, 2)%nat /\
+  option_map (fun ob => src_notok (o_src ob)) (objs s' 3) = Some false.
+Proof.
+  cbv zeta. split; [split; [vm_compute; reflexivity|split; [vm_compute; reflexivity|split]]|split; vm_compute; reflexivity].
+  - repeat constructor.
+  - intros k sc Hin. destruct (N.eqb_spec k 2) as [->|]; [|destruct Hin]. destruct Hin as [<-|[]]. repeat constructor; cbn; discriminate.
+Qed.
 
 Example C07_nonvacuous :
   let s0 := run (fun _ => []) (fun _ => []) [CAct (AInsert 1 (SComp false None [mkGen 10 (mkInt true false) Level None false] None))] in
